@@ -151,7 +151,8 @@ fn run_labels(ops: &[FlagOp], note: &str) -> String {
             }
             format!("(IOk ([{}], [{}]))", labs.join("; "), ress.join("; "))
         },
-        Ok(None) => { if !t.invalid { println!("ORACLE-FAIL\tvalid difficulty flag definitions rejected\t{}", note); } "IErr".to_string() },
+        // (definitions that re-point a printed name may be rejected: that is the fix of defect #10)
+        Ok(None) => { if !t.invalid && !t.repointed { println!("ORACLE-FAIL\tvalid difficulty flag definitions rejected\t{}", note); } "IErr".to_string() },
         Err(p) => { println!("ORACLE-FAIL\tpanic while applying difficulty flag definitions: {}\t{}", oneline(p), note); "IPanic".to_string() },
     };
     if let (Ok(Some(_)), true) = (&res, t.invalid) { println!("ORACLE-FAIL\tinvalid difficulty flag definition accepted\t{}", note); }
@@ -203,7 +204,11 @@ fn run_mask_file(ops: &[FlagOp], note: &str) {
     let mut src = String::from("void sub0() {\n");
     for m in 0..256 { writeln!(src, "    ins_900({});", m).unwrap(); }
     src.push_str("}\n");
-    let mut ecl = match compile_text(&src, &mapfile) { Ok(Some(e)) => e, _ => { println!("ORACLE-FAIL\tcannot compile the mask carrier script\t{}", note); return; } };
+    let mut ecl = match compile_text(&src, &mapfile) {
+        Ok(Some(e)) => e,
+        _ if t.repointed => return,   // the definitions were rejected
+        _ => { println!("ORACLE-FAIL\tcannot compile the mask carrier script\t{}", note); return; },
+    };
     if let Some(sub) = ecl.subs.values_mut().next() { for (m, i) in sub.instrs.iter_mut().enumerate() { i.difficulty = m as u8; } }
     let what_suffix = if t.repointed { " after a flag name was re-pointed to another bit" } else { "" };
     let text = match decompile_text(&ecl, &mapfile) {
